@@ -504,6 +504,13 @@ def D54():
     m = a.setup_optim_problem({'price': np.ones(tg.T)}, timegrid=tg).mapping
     return "grid starting on a Friday, periodicity 'W': variable 0 stands for %s" % [tg.timepoints[t].strftime('%a') for t in m.loc[[0], 'time_step']]
 
+@witness
+def D55():
+    tg = A.Timegrid(dt.date(2021, 1, 1), dt.date(2021, 1, 3), freq='h')
+    cap = np.hstack((np.zeros(12), 10 * np.ones(12), np.zeros(12), 10 * np.ones(12)))
+    a = A.SimpleContract(name='sc', nodes=N1, price='price', min_cap=0., max_cap='cap', freq='d')
+    return 'daily contract, capacity series 0 / 10 per half day: upper bounds %s' % a.setup_optim_problem({'price': -np.ones(tg.T), 'cap': cap}, timegrid=tg).u
+
 if __name__ == '__main__':
     which = sys.argv[1:] or list(W)
     for k in which:
